@@ -11,6 +11,27 @@ From Tele Require Import Lib.Bytes Lib.Calendar Gen.Consts.
 Import ListNotations.
 Open Scope N_scope.
 
+(* string literals as byte lists (evaluated here so that the extracted code
+   does not mention Coq strings) *)
+Definition lit_utc_midnight : bytes := Eval vm_compute in s2b " 00:00:00 +0000 UTC".
+Definition lit_dot : bytes := Eval vm_compute in s2b ".".
+Definition lit_dot_count : bytes := Eval vm_compute in s2b ".count".
+Definition lit_dot_json : bytes := Eval vm_compute in s2b ".json".
+Definition lit_slash_local : bytes := Eval vm_compute in s2b "/local".
+Definition lit_slash_mode : bytes := Eval vm_compute in s2b "/mode".
+Definition lit_slash_upload : bytes := Eval vm_compute in s2b "/upload".
+Definition lit_zero_date : bytes := Eval vm_compute in s2b "0001-01-01".
+Definition lit_debug : bytes := Eval vm_compute in s2b "debug".
+Definition lit_local : bytes := Eval vm_compute in s2b "local".
+Definition lit_localdir : bytes := Eval vm_compute in s2b "localdir: ".
+Definition lit_mode : bytes := Eval vm_compute in s2b "mode".
+Definition lit_mode_colon : bytes := Eval vm_compute in s2b "mode: ".
+Definition lit_modefile : bytes := Eval vm_compute in s2b "modefile: ".
+Definition lit_off : bytes := Eval vm_compute in s2b "off".
+Definition lit_on : bytes := Eval vm_compute in s2b "on".
+Definition lit_upload : bytes := Eval vm_compute in s2b "upload".
+Definition lit_uploaddir : bytes := Eval vm_compute in s2b "uploaddir: ".
+
 Inductive node :=
 | File (data : bytes)
 | Dir (entries : list (bytes * node)).
@@ -43,18 +64,18 @@ Definition lookup (p : list bytes) (t : tree) : option node :=
   match t with Some es => lookup_in p es | None => None end.
 
 (* names used by telemetry.NewDir *)
-Definition n_local : bytes := s2b "local".
-Definition n_upload : bytes := s2b "upload".
-Definition n_debug : bytes := s2b "debug".
-Definition n_mode : bytes := s2b "mode".
+Definition n_local : bytes := lit_local.
+Definition n_upload : bytes := lit_upload.
+Definition n_debug : bytes := lit_debug.
+Definition n_mode : bytes := lit_mode.
 
 (* ------------------------------------------------------------------ clean *)
 
 (* runClean's table: LocalDir -> {"." + counter.FileVersion + ".count", ".json"},
    UploadDir -> {".json"} *)
 Definition cli_local_sufs : list bytes :=
-  [s2b "." ++ c_FileVersion ++ s2b ".count"; s2b ".json"].
-Definition cli_upload_sufs : list bytes := [s2b ".json"].
+  [lit_dot ++ c_FileVersion ++ lit_dot_count; lit_dot_json].
+Definition cli_upload_sufs : list bytes := [lit_dot_json].
 
 Definition has_any_suffix (name : bytes) (sufs : list bytes) : bool :=
   existsb (has_suffix name) sufs.
@@ -103,14 +124,14 @@ Definition cli_read_mode (t : tree) : bytes * option Z :=
   match t with
   | Some es => match assoc n_mode es with
                | Some (File d) => cli_mode_parse d
-               | _ => (s2b "local", None)
+               | _ => (lit_local, None)
                end
-  | None => (s2b "local", None)
+  | None => (lit_local, None)
   end.
 
 Inductive mcmd := On | Local | Off.
 Definition mode_str (c : mcmd) : bytes :=
-  match c with On => s2b "on" | Local => s2b "local" | Off => s2b "off" end.
+  match c with On => lit_on | Local => lit_local | Off => lit_off end.
 
 (* data := []byte(mode + " " + asof) *)
 Definition mode_file_bytes (m : bytes) (today : Z) : bytes := m ++ [32] ++ fmt_date today.
@@ -163,16 +184,16 @@ Definition cli_run_all (cs : list (cmd * Z)) (t : tree) : tree :=
 
 (* runEnv: fmt.Printf("mode: %s %s\n", m, t) with t a time.Time (UTC midnight
    or the zero time), then the three paths *)
-Definition zero_date : bytes := s2b "0001-01-01".
+Definition zero_date : bytes := lit_zero_date.
 Definition date_or_zero (d : option Z) : bytes :=
   match d with Some day => fmt_date day | None => zero_date end.
 Definition cli_env_output (dir : bytes) (t : tree) : bytes :=
   let '(m, d) := cli_read_mode t in
-  s2b "mode: " ++ m ++ [32] ++ date_or_zero d ++ s2b " 00:00:00 +0000 UTC" ++ [10]
+  lit_mode_colon ++ m ++ [32] ++ date_or_zero d ++ lit_utc_midnight ++ [10]
   ++ [10]
-  ++ s2b "modefile: " ++ dir ++ s2b "/mode" ++ [10]
-  ++ s2b "localdir: " ++ dir ++ s2b "/local" ++ [10]
-  ++ s2b "uploaddir: " ++ dir ++ s2b "/upload" ++ [10].
+  ++ lit_modefile ++ dir ++ lit_slash_mode ++ [10]
+  ++ lit_localdir ++ dir ++ lit_slash_local ++ [10]
+  ++ lit_uploaddir ++ dir ++ lit_slash_upload ++ [10].
 
 (* ------------------------------------------------- executable oracles *)
 
